@@ -87,9 +87,9 @@ CHECKS = {
     note="a time missing from a returned table is read as zero; only states populated at some recorded time are selected (DESIGN 4.4)",
     tech=ABM_TECH),
  "C14": dict(cat="model_checking", ref="6/C14",
-    text="spec/Abm.tla registry fragment: TLC checks UniqueIds, IdsBelowNext, TypeMapExact, CountsAgree and the action property NeverReused exhaustively for <=5 (thorough 7) ids over create/delete(1-2 ids)/configure/reset/set-state; every history of length 4 (thorough 5) enumerated by TLC plus long random TLC behaviours are replayed into a real BPTK_Py.Model and every registry query is compared with the spec after every operation",
+    text="spec/Abm.tla registry fragment: TLC checks UniqueIds, IdsBelowNext, TypeMapExact, CountsAgree and the action property NeverReused exhaustively for <=5 (thorough 7) ids over create/delete(1-2 ids)/configure/reset/set-state; every history of length 4 (thorough 5) enumerated by TLC plus long random TLC behaviours are replayed into a real BPTK_Py.Model and every registry query is compared with the spec after every operation; in the other direction random operation sequences driven on the real Model are recorded (operation, arguments, every query answer) and validated by TLC against spec/AbmTrace.tla (an unexplained event = deadlock), with all invariants evaluated in every trace state",
     note="trusted: TLC, the ~150-line replay adapter; bounded history length / population; reference agents are plain Agent subclasses",
-    tech="TLA+ spec + TLC exhaustive invariants; TLC-generated behaviours replayed into the implementation with per-step state comparison"),
+    tech="TLA+ spec + TLC exhaustive invariants; TLC-generated behaviours replayed into the implementation with per-step state comparison; recorded implementation traces validated against the spec by TLC"),
 }
 NOT_YET = "check not built yet in this round (planned in DESIGN.md section 6); no claim is made"
 
